@@ -64,7 +64,7 @@ def add_tight_links(rng, spec):
 
 
 def gen_plan(rng, tier: str, idx: int) -> dict:
-    spec = M.gen_spec(rng, n_items=(3, 10), p_dist=0.8, allow_bare=False, families=list(M.FAMILIES))
+    spec = M.gen_spec(rng, n_items=(3, 10), p_dist=0.8, allow_bare=False, families=[f for f in M.FAMILIES if f != "uniform_lw"], weak_dist_p=0.0)
     add_tight_links(rng, spec)
     dvars = [it["name"] for it in spec if it["k"] == "var" and it.get("dist")]
     skip = []
